@@ -147,7 +147,7 @@ theorem requestTerminate_J (s : EState) (k r : String) (hj : J bt nr s) : J bt n
   · exact hj.afterRefuse k
   · obtain ⟨p1, p2, p3, p4, p5⟩ := termPrep_keepJ s k r
     split
-    · exact hj.refusedStep (s' := refuse (termPrep s k r) k) p4 (by show (termPrep s k r).refused ++ [k] = _; rw [p5]) p1 p2 p3
+    · exact hj.afterRefuse k
     · rename_i s' hs
       obtain ⟨k1, _, _, _, _, _, _, _, _, _, _, _, k13⟩ := setState_keep hs
       obtain ⟨_, _, _, j4, _⟩ := setState_keep2 hs
